@@ -18,11 +18,7 @@ Variable fs : fsys.
 Notation simple_line := (simple_line ordp).
 
 (* the text such lines contribute *)
-Definition is_regular (l : str) : bool :=
-  match parse_line ordp (trim_left is_blank l) with
-  | Ok pl => match pl_type pl with LRegular => true | _ => false end
-  | _ => false
-  end.
+Notation is_regular := (Parser.is_regular ordp).
 Definition text_of (ls : list str) : str :=
   concat (map (fun l => trim_left is_blank l ++ [10]) (filter is_regular ls)).
 
@@ -46,7 +42,7 @@ Proof.
     - match goal with |- bind (?L _ _) _ = _ => assert (E : forall ls r, Forall simple_line ls -> L r ls = Ok (add_text (text_of ls) r)) end.
       { induction ls as [|l ls IHl]; intros r HFa; [now rewrite add_text_nil|].
         inversion HFa as [|? ? (pl0 & Hp0 & Ht0) HFa']; subst.
-        rewrite Hp0. cbn [bind]. unfold text_of. cbn [filter]. unfold is_regular at 1. rewrite Hp0.
+        rewrite Hp0. cbn [bind]. unfold text_of. cbn [filter]. unfold Parser.is_regular at 1. rewrite Hp0.
         destruct Ht0 as [Ht0|[Ht0|Ht0]]; rewrite Ht0; cbn [bind map concat].
         - rewrite (IHl _ HFa'). now rewrite add_text_add_text.
         - now apply IHl.
@@ -55,7 +51,7 @@ Proof.
     - match goal with |- bind (?L _ _) _ = _ => assert (E : forall ls r, Forall simple_line ls -> L r ls = Ok (add_text (text_of ls) r)) end.
       { induction ls as [|l ls IHl]; intros r HFa; [now rewrite add_text_nil|].
         inversion HFa as [|? ? (pl0 & Hp0 & Ht0) HFa']; subst.
-        rewrite Hp0. cbn [bind]. unfold text_of. cbn [filter]. unfold is_regular at 1. rewrite Hp0.
+        rewrite Hp0. cbn [bind]. unfold text_of. cbn [filter]. unfold Parser.is_regular at 1. rewrite Hp0.
         destruct Ht0 as [Ht0|[Ht0|Ht0]]; rewrite Ht0; cbn [bind map concat].
         - rewrite (IHl _ HFa'). now rewrite add_text_add_text.
         - now apply IHl.
@@ -73,7 +69,7 @@ Proof.
     apply IHa.
   - induction ls as [|l ls IHl]; intros r HFa; [now rewrite add_text_nil|].
     inversion HFa as [|? ? (pl0 & Hp0 & Ht0) HFa']; subst.
-    rewrite Hp0. cbn [bind]. unfold text_of. cbn [filter]. unfold is_regular at 1. rewrite Hp0.
+    rewrite Hp0. cbn [bind]. unfold text_of. cbn [filter]. unfold Parser.is_regular at 1. rewrite Hp0.
     destruct Ht0 as [Ht0|[Ht0|Ht0]]; rewrite Ht0; cbn [bind map concat].
     + rewrite (IHl _ HFa'). now rewrite add_text_add_text.
     + now apply IHl.
